@@ -27,6 +27,16 @@ CHECKS = {
             "format(17)->parse must be the identity on bit patterns: sampled doubles from every binade and the risky "
             "neighbourhoods, and every float; no reference needed, the oracle is bit equality.",
             "doubles are sampled (2^64 cannot be enumerated)", "3/C11"),
+    "C05": ("sanitizer monitoring (ASan + UBSan subset, guard pages, CPU watchdog, ledger) of generated/mutated/truncated inputs",
+            "Millions of hostile inputs (every prefix, byte/token mutations, NULs after keyword prefixes, unterminated "
+            "keys/strings/escapes, soups, nesting to 1024) in exact-size heap blocks and against PROT_NONE pages, four unit "
+            "widths, three SIMD builds, hooks on/off; deep nesting also on the default 8 MiB stack without instrumentation.",
+            "red-zone tools miss far and intra-object overflows; only generated inputs <= 4 KiB are judged", "3/C05"),
+    "C07": ("runtime oracle-by-construction over every cut point of generated documents",
+            "Inputs are invalid by construction, so the oracle (result must be Undefined) is exact; every proper prefix of "
+            "every generated document is tried with the rest of the document lying behind the cut, plus trailing-garbage and "
+            "closer-swap/removal families.",
+            "documents come from a generator of the RFC 8259 grammar; sampling of an infinite set", "3/C07"),
 }
 
 PENDING = {}
